@@ -6,6 +6,7 @@ import (
 	"os"
 	"path/filepath"
 	"strconv"
+	"sync"
 	"testing"
 	"time"
 
@@ -115,6 +116,76 @@ func genSequential(t *rapid.T, w *Workload) []WOp {
 func init() {
 	vk.Register("C09", "conc", runConcReplay)
 	vk.Register("C09", "bigclear", runBigClear)
+	vk.Register("C09", "multi", runMulti)
+}
+
+// MultiCase: several caches live at the same time, each used by ONE goroutine
+// only.  Every cache must behave exactly like the sequential reference (the
+// interpreter of C08 runs on each): caches share nothing a caller can see, so
+// what other goroutines do with THEIR caches must not matter.  Package-level
+// state shared by all caches (a clock, a pool) shows up here, and under the
+// race build as a data race.
+type MultiCase struct {
+	Caches []CacheCase `json:"caches"`
+}
+
+func runMulti(c MultiCase, o *vk.Obs) string {
+	msgs := make([]string, len(c.Caches))
+	var wg sync.WaitGroup
+	start := make(chan struct{})
+	for i := range c.Caches {
+		wg.Add(1)
+		go func(i int) {
+			defer wg.Done()
+			<-start
+			msgs[i] = vk.Guard(func() string { return runC08(c.Caches[i], &vk.Obs{}) })
+		}(i)
+	}
+	close(start)
+	wg.Wait()
+	for i, m := range msgs {
+		if m != "" {
+			return fmt.Sprintf("cache %d of %d, each used by its own goroutine only: %s", i+1, len(c.Caches), m)
+		}
+	}
+	if len(c.Caches) >= 2 {
+		o.NonTrivial()
+	}
+	return ""
+}
+
+// TestC09Multi: 2..8 private caches driven concurrently.
+func TestC09Multi(t *testing.T) {
+	h := vk.Start(t, "C09", "multi")
+	n := h.Pick(150, 6000)
+	base := int(h.Mix("multi") % (1 << 30))
+	gen := rapid.Custom(genCacheCase)
+	tl := vk.NewTally()
+	for i := 0; i < n && !h.Failed(); i++ {
+		k := []int{2, 4, 8, 8}[i%4]
+		var c MultiCase
+		for j := 0; j < k; j++ {
+			cc := gen.Example(base + i*8 + j)
+			if i%3 == 0 { // small, busy caches: frequent evictions
+				cc.Limit = 1 + (i+j)%3
+			}
+			c.Caches = append(c.Caches, cc)
+		}
+		b, _ := vk.Marshal(c)
+		rf, _ := json.MarshalIndent(vk.ReplayFile{Property: "C09", Leg: "multi", Message: "caches that were in use when the race detector stopped the process", Case: b}, "", " ")
+		os.WriteFile(filepath.Join(h.OutDir, "current.json"), rf, 0o644)
+		o := &vk.Obs{}
+		if msg := runMulti(c, o); msg != "" {
+			p := h.Fail(c, msg)
+			t.Fatalf("VK-VIOLATION property=C09 leg=multi replay=%s\n%s", p, msg)
+		}
+		tl.AddObs(o)
+		tl.Classes[fmt.Sprintf("caches=%d", k)]++
+		if i%29 == 5 {
+			h.Sample(MultiCase{Caches: c.Caches[:1]}, true)
+		}
+	}
+	h.MergeTally(tl)
 }
 
 // TestC09BigClear: one Clear of a large cache against concurrent readers.
